@@ -523,7 +523,7 @@ package motion
 //@   ensures d.backgroundFrames == old(d.backgroundFrames) + 1 && 0.0 <= avg && avg < 65536.0
 //@   ensures [C15] forall y int, x int :: d.interior(y, x) ==> d.background.Pix[y][x] <= new_frame.Pix[y][x]
 //@   ensures [C15] prevFFC || d.backgroundFrames == 1 ==> (forall y int, x int :: d.interior(y, x) ==> d.background.Pix[y][x] == new_frame.Pix[y][x])
-//@   ensures [C15] d.backgroundFrames == 1 ==> changed
+//@   ensures [C15] d.backgroundFrames == 1 ==> !changed && avg == 0.0
 
 //@ func (d *motionDetector) Detect(frame)
 //@   requires d != nil && d.DInv() && d.bgInv() && frameDims(frame, d.gResX, d.gResY) && d.notMine(frame) && frame != d.background
